@@ -140,3 +140,6 @@ func VerifTSSMuHeld() bool {
 // VerifTSSMuReset replaces the store mutex by a fresh one (between runs: a run that
 // was torn down while a goroutine of a modified tree held it must not poison the next).
 func VerifTSSMuReset() { tssMu = simsync.Mutex{} }
+
+// VerifSnapshotTSSLen returns the sizes of the heap and of the map without copying.
+func VerifSnapshotTSSLen() (heapLen, mapLen int) { return len(tssQ), len(tss) }
